@@ -206,6 +206,10 @@ def _(v):
     ion = Substance("H+", charge=1, composition=comp)
     parent = Substance("H", composition=comp)
     v.prove("charge_keyword_does_not_write_into_the_callers_composition", comp == {1: 1} and ion.composition == {1: 1, 0: 1} and parent.charge == 0 and close(parent.mass - ion.mass, me))
+    w1 = Substance.from_formula("Kr2O5Xe")       # a formula nothing else in this process has parsed before (first parse, not a cache hit)
+    w1.composition[8] = 3             # the caller edits ITS substance
+    w2 = Substance.from_formula("Kr2O5Xe")
+    v.prove("editing_one_substance_does_not_change_the_next", close(w2.mass, 2 * ram[35] + 5 * ram[7] + ram[53]) and close(w1.mass, 2 * ram[35] + 3 * ram[7] + ram[53]))
     c = Substance("X", composition={1: 2, 8: 1})
     m1 = c.mass
     c.composition[8] = 2
